@@ -1746,20 +1746,20 @@ Section Whole.
   Notation CoreI := (Core pd su).
 
   (* how the decoder's run over the bytes of the program can end *)
-  Inductive outcome (x : qv) (pstf : qstate) (idx : N) (st : dstate) (inp : bytes) : Prop :=
-  | O_good : forall i' st' b' v tl after,
-      exec cfg idx st inp i' st' (x2e :: after) -> d_stack st' = v :: tl ->
+  Inductive outcome (x : qv) (pstf : qstate) (rest : bytes) (idx : N) (st : dstate) (inp : bytes) : Prop :=
+  | O_good : forall i' st' b' v tl,
+      exec cfg idx st inp i' st' (x2e :: rest) -> d_stack st' = v :: tl ->
       CoreI b' (set_stack st' tl) pstf -> R pd su b' (q_heap pstf) v x -> d_stale st' = false ->
-      outcome x pstf idx st inp
+      outcome x pstf rest idx st inp
   | O_stale : forall i' st' inp',
-      exec cfg idx st inp i' st' inp' -> d_stale st' = true -> outcome x pstf idx st inp
+      exec cfg idx st inp i' st' inp' -> d_stale st' = true -> outcome x pstf rest idx st inp
   | O_exn : forall i' st' key inp',
-      exec cfg idx st inp i' st' (key :: inp') -> step_exn pd su st' i' key -> outcome x pstf idx st inp.
+      exec cfg idx st inp i' st' (key :: inp') -> step_exn pd su st' i' key -> outcome x pstf rest idx st inp.
 
-  Lemma outcome_step : forall x pstf idx st inp i1 st1 inp1,
-    exec cfg idx st inp i1 st1 inp1 -> outcome x pstf i1 st1 inp1 -> outcome x pstf idx st inp.
+  Lemma outcome_step : forall x pstf rest idx st inp i1 st1 inp1,
+    exec cfg idx st inp i1 st1 inp1 -> outcome x pstf rest i1 st1 inp1 -> outcome x pstf rest idx st inp.
   Proof.
-    intros x pstf idx st inp i1 st1 inp1 E O. destruct O as [i' st' b' v tl after E' S C Rv Hs|i' st' inp' E' Hs|i' st' key inp' E' X].
+    intros x pstf rest idx st inp i1 st1 inp1 E O. destruct O as [i' st' b' v tl E' S C Rv Hs|i' st' inp' E' Hs|i' st' key inp' E' X].
     - eapply O_good; [eapply exec_trans; eassumption|eassumption..].
     - eapply O_stale; [eapply exec_trans; eassumption|assumption].
     - eapply O_exn; [eapply exec_trans; eassumption|assumption].
@@ -1769,13 +1769,21 @@ Section Whole.
     CoreI b (set_proto st p) {| q_stack := q_stack pst; q_memo := q_memo pst; q_heap := q_heap pst; q_next := q_next pst; q_proto := p |}.
   Proof. intros b st pst p C. destruct C. constructor; cbn; try assumption. reflexivity. Qed.
 
+  (* what follows the first STOP of a program (nothing, for a program that ends with its STOP) *)
+  Fixpoint after_stop (prog : list insn) : list insn :=
+    match prog with
+    | [] => []
+    | IStop :: r => r
+    | _ :: r => after_stop r
+    end.
+
   Theorem run_sim : forall prog b st pst idx x pstf rest,
     CoreI b st pst -> d_stale st = false -> qrun prog pst = Some (x, pstf) ->
-    outcome x pstf idx st (asm_all prog ++ rest).
+    outcome x pstf (asm_all (after_stop prog) ++ rest) idx st (asm_all prog ++ rest).
   Proof.
     induction prog as [|i prog IH]; intros b st pst idx x pstf rest C Hs H; [discriminate|].
     assert (Step : forall pst', qstep i pst = Some pst' -> qrun prog pst' = Some (x, pstf) ->
-                   outcome x pstf idx st (asm_all (i :: prog) ++ rest)).
+                   outcome x pstf (asm_all (after_stop prog) ++ rest) idx st (asm_all (i :: prog) ++ rest)).
     { intros pst' Hq Hr. unfold asm_all. cbn [flat_map]. rewrite <- app_assoc. fold (asm_all prog).
       destruct (step_sim pd su b st pst pst' idx (asm_all prog ++ rest) i C Hs Hq) as [[b' [st' [E [[St _]|C']]]]|[key [Ek X]]].
       - eapply O_stale; eassumption.
@@ -1837,13 +1845,77 @@ Section Final.
   Proof.
     intros prog x pstf rest H. unfold qload in H.
     destruct (run_sim pd su prog [] (start_state init_state) q_init 0 x pstf rest core_init eq_refl H)
-      as [i' st' b' v tl after E S C Rv Hs|i' st' inp' E Hs|i' st' key inp' E [Hp [op [st'' [e [Ho [Hst Hh]]]]]]].
-    - left. exists v, (set_stack st' tl), b', after. split; [|split; [exact Rv|split; [exact C|exact Hs]]].
+      as [i' st' b' v tl E S C Rv Hs|i' st' inp' E Hs|i' st' key inp' E [Hp [op [st'' [e [Ho [Hst Hh]]]]]]].
+    - left. exists v, (set_stack st' tl), b', (asm_all (after_stop prog) ++ rest). split; [|split; [exact Rv|split; [exact C|exact Hs]]].
       eapply exec_decode; [exact E|exact S|]. eapply R_not_mark. exact Rv.
     - right. left. exists i', st', inp'. split; assumption.
     - right. right. split; [exact Hp|]. exists e, st'', inp'. eapply exec_decode_err; eassumption.
   Qed.
 End Final.
+
+(* ---- streams (C11): successive Decode calls on one Decoder against successive load() calls on one
+   CPython Unpickler (which keeps its memo and objects between calls, and starts each call with an
+   empty stack and protocol 0, like Decode) ------------------------------------------------------- *)
+Section Stream.
+  Variable pd su : bool.
+  Let cfg := Build_dconfig pd su None.
+
+  Lemma core_restart : forall b st pst, Core pd su b st pst -> Core pd su b (start_state st) (qrestart pst).
+  Proof.
+    intros b st pst C. destruct C. constructor; cbn; try assumption; [constructor|reflexivity].
+  Qed.
+
+  (* successive Decode calls, as long as neither exception of C06 occurs: call k returns a value
+     standing for the k-th loaded Python value (in the Python heap of that moment), consuming
+     exactly its pickle *)
+  Inductive stream_rel : dstate -> bytes -> list (qv * qstate) -> Prop :=
+  | sr_nil : forall st inp, stream_rel st inp []
+  | sr_good : forall st inp x pst' xs v st' after b',
+      decode cfg st inp = ((Ok v, st'), after) ->
+      R pd su b' (q_heap pst') v x -> Core pd su b' st' pst' -> d_stale st' = false ->
+      stream_rel st' after xs -> stream_rel st inp ((x, pst') :: xs)
+  | sr_stale : forall st inp x pst' xs i' st' inp',
+      exec cfg 0 (start_state st) inp i' st' inp' -> d_stale st' = true ->
+      stream_rel st inp ((x, pst') :: xs)
+  | sr_exn : forall st inp x pst' xs e st' after,
+      pd = false -> decode cfg st inp = ((Err e, st'), after) ->
+      stream_rel st inp ((x, pst') :: xs).
+
+  Theorem stream_sim : forall progs b st pst xs rest,
+    Core pd su b (start_state st) (qrestart pst) -> d_stale st = false ->
+    Forall (fun p => after_stop p = []) progs ->
+    qload_all progs pst = Some xs ->
+    stream_rel st (concat (map asm_all progs) ++ rest) xs.
+  Proof.
+    induction progs as [|p r IH]; intros b st pst xs rest C Hs Hf H; cbn [qload_all] in H.
+    - inversion H; subst. apply sr_nil.
+    - destruct (qrun p (qrestart pst)) as [[x pst']|] eqn:Hq; [|discriminate].
+      destruct (qload_all r pst') as [xs'|] eqn:Hr; [|discriminate]. inversion H; subst xs.
+      inversion Hf as [|p0 r0 Hp Hf']; subst.
+      cbn [map concat]. rewrite <- app_assoc.
+      pose proof (run_sim pd su p b (start_state st) (qrestart pst) 0 x pst' (concat (map asm_all r) ++ rest) C Hs Hq) as O.
+      rewrite Hp in O. cbn [asm_all flat_map app] in O.
+      destruct O as [i' st' b' v tl E S C' Rv Hs'|i' st' inp' E Hs'|i' st' key inp' E [Hpd [op [st'' [e [Ho [Hst Hh]]]]]]].
+      + eapply sr_good with (v := v) (st' := set_stack st' tl) (b' := b').
+        * eapply exec_decode; [exact E|exact S|]. eapply R_not_mark. exact Rv.
+        * exact Rv.
+        * exact C'.
+        * exact Hs'.
+        * eapply IH; [apply core_restart; exact C'|exact Hs'|exact Hf'|exact Hr].
+      + eapply sr_stale; eassumption.
+      + eapply sr_exn; [exact Hpd|]. eapply exec_decode_err; eassumption.
+  Qed.
+
+  (* from a fresh Decoder and a fresh Unpickler *)
+  Corollary stream_sim_fresh : forall progs xs rest,
+    Forall (fun p => after_stop p = []) progs ->
+    qload_all progs q_init = Some xs ->
+    stream_rel init_state (concat (map asm_all progs) ++ rest) xs.
+  Proof.
+    intros progs xs rest Hf H. eapply stream_sim with (b := []); [|reflexivity|exact Hf|exact H].
+    exact (core_init pd su).
+  Qed.
+End Stream.
 
 (* C09: what a decoded dict object holds *)
 Section DictResult.
